@@ -331,6 +331,14 @@ func checkHistory(r *reporter, k *Kind, memo *isoMemo, hist []Op) *world {
 			r.outcome("derive-returned-prototype-itself")
 		default:
 			r.outcome("derive-created-variant")
+
+			// a rule's variant is its own: the object a DIFFERENT override produced earlier cannot stand in for it
+			for i := 1; i < n; i++ {
+				if w.ovs[i] != w.ovs[n] && sameObject(w.objs[n], w.objs[i]) {
+					r.violation("derive-returned-the-variant-of-another-override/"+k.Name+"/"+orP(w.ovs[n]),
+						fmt.Sprintf("%s: the object returned for override %s is the one created earlier for override %s", hs, orP(w.ovs[n]), orP(w.ovs[i])), cs)
+				}
+			}
 		}
 
 		for i := 0; i < n; i++ {
